@@ -3,7 +3,7 @@ Operation sequences: a small `Op` language over the API of Model/Machine.lean, `
 and the invariant `Mach.Inv` that every run preserves.
 
 `Mach.step` first installs the decisions the user callbacks of this call will take and the numbers
-the generator will yield (`Step.ds`, `Step.rng` — universally quantified in every theorem), then
+the generator will yield (`ApiStep.ds`, `ApiStep.rng` — universally quantified in every theorem), then
 performs the call.  Calls the library documents as illegal in the current activation state (they are
 `HFSM2_ASSERT(isActive())` / `HFSM2_ASSERT(!isActive())` in root_0.inl / root_1.inl) are recorded as
 a contract violation (`err`), like every other violated precondition of the model.
@@ -31,7 +31,7 @@ inductive Op (U : Type)
   | replayEnter (ts : List Transition)
 
 /-- One API call together with everything the environment contributes to it. -/
-structure Step (U : Type) where
+structure ApiStep (U : Type) where
   ds  : List (Decision U)
   rng : List U
   op  : Op U
@@ -43,7 +43,7 @@ def feed (m : Mach U) (ds : List (Decision U)) (rng : List U) : Mach U :=
 
 def violate (m : Mach U) (msg : String) : Mach U := { m with w := m.w.fail' msg }
 
-def step (m0 : Mach U) (s : Step U) : Mach U :=
+def step (m0 : Mach U) (s : ApiStep U) : Mach U :=
   let m := m0.feed s.ds s.rng
   let act := m.root.machineActive
   match s.op with
@@ -62,7 +62,7 @@ def step (m0 : Mach U) (s : Step U) : Mach U :=
   | .replayTransitions ts => if act then (m.replayTransitions ts).1 else m.violate "replayTransitions() on an instance that is not activated"
   | .replayEnter ts => if act then m.violate "replayEnter() on an activated instance" else (m.replayEnter ts).1
 
-def run (m : Mach U) (steps : List (Step U)) : Mach U := steps.foldl step m
+def run (m : Mach U) (steps : List (ApiStep U)) : Mach U := steps.foldl step m
 
 /-! ### the invariant -/
 
@@ -154,35 +154,35 @@ theorem create_err (shape : Shape) (cfg : Config) : (create shape cfg : Mach U).
 theorem load_errLe (m : Mach U) (st : List Bool) : World.ErrLe m.w (m.load st).w := by
   unfold load
   split
-  · intro h; exact absurd h (World.fail'_err _ _)
+  · intro h; exact absurd h (World.fail'_errX _ _)
   · split
     · exact loadActive_errLe m _
     · split
       · exact loadEnter_errLe m _
-      · intro h; exact absurd h (World.fail'_err _ _)
+      · intro h; exact absurd h (World.fail'_errX _ _)
   · split
     · split
       · exact finalExit_errLe m
       · exact World.ErrLe.refl _
-    · intro h; exact absurd h (World.fail'_err _ _)
+    · intro h; exact absurd h (World.fail'_errX _ _)
 
 theorem load_inv {base : Node} {m : Mach U} (st : List Bool) (hi : Inv base m) (he : (m.load st).w.err = none) :
     Inv base (m.load st) := by
   revert he
   unfold load
   split
-  · intro h; exact absurd h (World.fail'_err _ _)
+  · intro h; exact absurd h (World.fail'_errX _ _)
   · split
     · next hm => intro he; exact Inv.of_live (loadActive_inv _ (hi.live hm) he)
     · next hm =>
       split
       · intro he; exact Inv.of_live (loadEnter_inv _ (hi.dorm (by simpa using hm)) he)
-      · intro h; exact absurd h (World.fail'_err _ _)
+      · intro h; exact absurd h (World.fail'_errX _ _)
   · split
     · split
       · intro _; exact Inv.of_dorm (finalExit_inv hi.shape hi.good hi.act_or_clean).1
       · intro _; exact hi
-    · intro h; exact absurd h (World.fail'_err _ _)
+    · intro h; exact absurd h (World.fail'_errX _ _)
 
 /-! ### one step, a run -/
 
@@ -190,9 +190,9 @@ theorem feed_inv {base : Node} {m : Mach U} (ds : List (Decision U)) (rng : List
     Inv base (m.feed ds rng) :=
   hi.world _ (hi.good.of_eq rfl rfl rfl)
 
-theorem violate_err (m : Mach U) (msg : String) : (m.violate msg).w.err ≠ none := World.fail'_err _ _
+theorem violate_err (m : Mach U) (msg : String) : (m.violate msg).w.err ≠ none := World.fail'_errX _ _
 
-theorem step_errLe (m : Mach U) (s : Step U) : World.ErrLe m.w (m.step s).w := by
+theorem step_errLe (m : Mach U) (s : ApiStep U) : World.ErrLe m.w (m.step s).w := by
   have hv : ∀ (m' : Mach U) msg, World.ErrLe m.w (m'.violate msg).w :=
     fun m' msg h => absurd h (violate_err m' msg)
   have hf : (m.feed s.ds s.rng).w.err = m.w.err := rfl
@@ -216,7 +216,7 @@ theorem step_errLe (m : Mach U) (s : Step U) : World.ErrLe m.w (m.step s).w := b
   | replayTransitions ts => dsimp only; split; exact lift (replayTransitions_errLe _ ts); exact hv _ _
   | replayEnter ts => dsimp only; split; exact hv _ _; exact lift (replayEnter_errLe _ ts)
 
-theorem step_inv {base : Node} {m : Mach U} (s : Step U) (hi0 : Inv base m) (he : (m.step s).w.err = none) :
+theorem step_inv {base : Node} {m : Mach U} (s : ApiStep U) (hi0 : Inv base m) (he : (m.step s).w.err = none) :
     Inv base (m.step s) := by
   have hi := feed_inv s.ds s.rng hi0
   revert he
@@ -285,16 +285,85 @@ theorem step_inv {base : Node} {m : Mach U} (s : Step U) (hi0 : Inv base m) (he 
       · exact Inv.of_dorm (this.2 hb)
       · exact Inv.of_live (this.1 hb).1
 
-theorem run_errLe : (steps : List (Step U)) → (m : Mach U) → World.ErrLe m.w (m.run steps).w
+theorem run_errLe : (steps : List (ApiStep U)) → (m : Mach U) → World.ErrLe m.w (m.run steps).w
   | [], m => World.ErrLe.refl _
   | s :: rest, m => World.ErrLe.trans (step_errLe m s) (run_errLe rest (m.step s))
 
 /-- Every run preserves the invariant. -/
-theorem run_inv {base : Node} : (steps : List (Step U)) → (m : Mach U) → Inv base m → (m.run steps).w.err = none →
+theorem run_inv {base : Node} : (steps : List (ApiStep U)) → (m : Mach U) → Inv base m → (m.run steps).w.err = none →
     Inv base (m.run steps)
   | [], m, hi, _ => hi
   | s :: rest, m, hi, he =>
     run_inv rest (m.step s) (step_inv s hi (run_errLe rest (m.step s) he)) he
+
+/-! ### where no request marks remain
+
+`NoMarks` (hence `Settled` / `Idle` of Proofs/Wf.lean) is re-established by every operation below; it is
+NOT by `replayEnter` when that returns `false` on a non-empty history (`Props.C01.stale_marks_witness`),
+and it is not proved here for `load` and `replayTransitions` (the former needs "the marks laid down by
+`loadRequested` are all consumed by the commit pass", see Proofs/SerialLoad.lean of C08; the latter
+"equal marks ⇒ `marksDiffer = false`" for the unchanged case). -/
+
+def _root_.Hfsm.Op.marksSafe : Op U → Bool
+  | .load _ | .replayTransitions _ | .replayEnter _ => false
+  | _ => true
+
+theorem step_noMarks {base : Node} {m : Mach U} (s : ApiStep U) (hi0 : Inv base m) (hn : m.root.NoMarks)
+    (hop : s.op.marksSafe = true) (he : (m.step s).w.err = none) : (m.step s).root.NoMarks := by
+  have hi := feed_inv s.ds s.rng hi0
+  have hn1 : (m.feed s.ds s.rng).root.NoMarks := hn
+  revert he
+  unfold step
+  dsimp only
+  generalize m.feed s.ds s.rng = m1 at hi hn1
+  cases hs : s.op with
+  | enter =>
+    dsimp only; split
+    · intro h; exact absurd h (violate_err _ _)
+    · next hm => intro he; exact (initialEnter_inv (hi.dorm (by simpa using hm)) he).2
+  | exit =>
+    dsimp only; split
+    · intro _; exact (finalExit_inv hi.shape hi.good hi.act_or_clean).2
+    · intro h; exact absurd h (violate_err _ _)
+  | update =>
+    dsimp only; split
+    · next hm =>
+      intro he
+      rcases (update_inv (hi.live hm) he).2 with h | h
+      · exact h
+      · rw [h]; exact hn1
+    · intro h; exact absurd h (violate_err _ _)
+  | react =>
+    dsimp only; split
+    · next hm =>
+      intro he
+      rcases (react_inv (hi.live hm) he).2 with h | h
+      · exact h
+      · rw [h]; exact hn1
+    · intro h; exact absurd h (violate_err _ _)
+  | query =>
+    dsimp only; split
+    · intro _; exact hn1
+    · intro h; exact absurd h (violate_err _ _)
+  | reset =>
+    dsimp only; split
+    · intro he; exact (reset_inv hi.shape hi.good hi.act_or_clean trivial he).2
+    · intro h; exact absurd h (violate_err _ _)
+  | request k d p => intro _; exact hn1
+  | immediate k d p =>
+    dsimp only; split
+    · next hm =>
+      intro he
+      rcases (immediate_inv k d p (hi.live hm) he).2 with h | h
+      · exact h
+      · rw [h]; exact hn1
+    · intro h; exact absurd h (violate_err _ _)
+  | setTask sid b => intro _; simpa using hn1
+  | planAppend rid t => intro _; exact hn1
+  | planClear rid => intro _; simpa using hn1
+  | load bits => rw [hs] at hop; cases hop
+  | replayTransitions ts => rw [hs] at hop; cases hop
+  | replayEnter ts => rw [hs] at hop; cases hop
 
 end Mach
 end Hfsm
